@@ -1,16 +1,17 @@
 //! C08 — vehicle energy and battery state follow the powertrain model along a route.
 //! Correspondence: the real `EnergyTraversalModel` (built through `EnergyTraversalModel::new`, hence
-//! through the real `update_from_query`) over the real `SpeedTraversalModel` (speed table) and the real
-//! ICE / BEV / PHEV vehicle types with real `PredictionModelRecord`s (optionally with the real
-//! `FloatCachePolicy`) whose `PredictionModel` is a stub that is affine in speed and grade; the state
-//! after every edge, `best_case_energy` and `best_case_energy_state` are compared bit for bit with the
-//! Lean model.  `estimate_traversal` is not driven (its distance comes out of the f32 haversine
-//! formula); `best_case_energy_state`, which is all it adds to the time model's estimate, is called
-//! directly on the vehicle.
+//! through the real `update_from_query`) over the real `SpeedTraversalModel` (speed table, real
+//! `get_max_speed`) and the real ICE / BEV / PHEV vehicle types with real `PredictionModelRecord`s
+//! (optionally with the real `FloatCachePolicy`) whose `PredictionModel` is a stub that is affine in
+//! speed and grade; the state model is built as `SearchApp::build_search_instance` builds it (real
+//! `collect_features` over the query's `state_features`, then `StateModel::extend`).  The state after
+//! every `traverse_edge`, `best_case_energy`, `best_case_energy_state` and the real
+//! `estimate_traversal` (its great-circle distance, computed by the real haversine code, is handed to
+//! the model as data) are compared bit for bit with the Lean model.
 //! Oracle (independent of the model): start charge = query value, rejection outside [0,100], charge
 //! within [0,100] after every edge, unclamped step = -100 E / capacity, clamp direction, per-edge energy =
 //! rate(edge speed, edge grade) x adjustment x length (hand-written SI factors), additivity, PHEV switch,
-//! best-case energy.
+//! best-case energy (direct and through estimate_traversal).
 use crate::ctx::{fbits, Ctx};
 use crate::rng::Rng;
 use routee_compass_core::model::network::{Edge, Vertex};
@@ -763,7 +764,8 @@ fn oracle(ctx: &mut Ctx, idx: usize, sp: &Spec, oc: &Outcome) {
             let key = if battery && !same_e(&bu, &sp.bunit) { "best_case_energy_state/unit-mix" } else { "estimate/best-case" };
             ctx.fail(idx, key, format!("estimate over {} m: feature went from {} to {} {} but ideal rate {} {} x distance = {} {}", hm, p_acc, c_acc, fu, r.ideal, r.ru, e_f, fu));
         }
-        if battery && !(o.soc >= 0.0 && o.soc <= 100.0) {
+        // (a charge set out of range through state_features is reported under its own key)
+        if battery && (oc.last.soc >= 0.0 && oc.last.soc <= 100.0) && !(o.soc >= 0.0 && o.soc <= 100.0) {
             ctx.fail(idx, "soc/out-of-bounds", format!("estimate_traversal: charge {}", o.soc));
         }
     }
@@ -1108,5 +1110,5 @@ pub fn run(ctx: &mut Ctx) -> &'static str {
             }
         }
     }
-    "real EnergyTraversalModel (via ::new and the real update_from_query) over the real speed-table time model, real ICE/BEV/PHEV and PredictionModelRecord (with/without the real FloatCachePolicy) around an affine stub predictor; 1-60 edges, every unit of every configurable quantity (prediction model speed/grade/rate units, time model speed/distance/time units, service speed/grade/distance units, battery unit, state feature units), capacities 1e-6..1e9 and relative to the route's need, starting charge inside/at/outside [0,100], absent and non-numeric, steep downhill, long uphill, missing table rows, non-positive speeds, zero-length edges; non-trivial = accepted query with at least two traversed edges; distinct by full case text"
+    "real EnergyTraversalModel (via ::new and the real update_from_query; traverse_edge and estimate_traversal) over the real speed-table time model, real ICE/BEV/PHEV and PredictionModelRecord (with/without the real FloatCachePolicy) around an affine stub predictor, state model through the real collect_features/extend; 1-60 edges, every unit of every configurable quantity (prediction model speed/grade/rate units, time model speed/distance/time units, service speed/grade/distance units, battery unit, state feature units via the query's state_features), capacities 1e-6..1e9 and relative to the route's need, starting charge inside/at/outside [0,100], absent, non-numeric and set through state_features, steep downhill, long uphill, missing table rows, non-positive speeds, zero-length edges; non-trivial = accepted query with at least two traversed edges; distinct by full case text"
 }
